@@ -220,6 +220,7 @@ fn kind_name(ins: &Instruction) -> String {
         Instruction::TupleAccess(_) => "TupleAccess".into(),
         Instruction::TypeFilter(_) => "TypeFilter".into(),
         Instruction::Variable(_) => "Variable".into(),
+        Instruction::Fail(_) => "Fail".into(),
         Instruction::BinOperation(op) => format!("BinOperation({:?})", op.op),
         Instruction::UnaryOperation(op) => format!("UnaryOperation({:?})", op.op),
     }
